@@ -59,6 +59,7 @@ import (
 
 var errVfInjected = errors.New("vf: injected storage fault")
 var errVfDown = errors.New("vf: primary database unreachable")
+var errVfFlap = errors.New("vf: the database system is starting up")
 
 // vfFaultCtl is shared by the primary ('p') and the cache ('c') wrapper.
 type vfFaultCtl struct {
@@ -72,10 +73,14 @@ type vfFaultCtl struct {
 	trace      []byte // one letter per event: lower case primary, upper case cache
 	down       bool   // primary: every statement fails
 	downAfter  int    // primary: becomes unreachable after this many more statements (-1: never)
+	readErr    bool   // primary: executing a SELECT reports an error, everything else works (flapping primary)
+	pFailAt    int    // primary: only the statement with this index (counted from pN = 0) fails (-1: none)
+	pN         int
+	pHit       bool
 	readDelay  time.Duration
 }
 
-var vfF = &vfFaultCtl{failAt: -1, downAfter: -1}
+var vfF = &vfFaultCtl{failAt: -1, downAfter: -1, pFailAt: -1}
 
 func (f *vfFaultCtl) arm(failAt int, commitPost bool) {
 	f.mu.Lock()
@@ -104,6 +109,17 @@ func (f *vfFaultCtl) event(role byte, kind byte) error {
 		}
 		if f.down {
 			return errVfDown
+		}
+		if f.pFailAt >= 0 {
+			k := f.pN
+			f.pN++
+			if k == f.pFailAt {
+				f.pHit = true
+				return errVfFlap
+			}
+		}
+		if f.readErr && kind == 'q' {
+			return errVfFlap
 		}
 	}
 	if !f.armed || f.gid != vfGoroutineID() {
@@ -735,14 +751,9 @@ func (h *vfC15) restore(db *sql.DB, s *vfSnap) {
 
 // ---------------------------------------------------------------- setup
 
-func vfC15Setup(t *testing.T) (*vfC15, func()) {
-	vfRegisterOnce.Do(func() {
-		sql.Register("vfsqlite_p", &vfDriver{'p'})
-		sql.Register("vfsqlite_c", &vfDriver{'c'})
-	})
-	state, cleanup := vfNewState(t)
-	// stop the background copier before its first run: every synchronisation is explicit
-	state.dbDone <- struct{}{}
+// vfWrapDBs replaces the two handles initDB opened by handles on the same files that go through
+// the wrapping driver (the background copier has been cancelled before its first run).
+func vfWrapDBs(t *testing.T, state *RuntimeState) {
 	state.db.Close()
 	state.cacheDB.Close()
 	pPath := filepath.Join(state.Config.Base.DataDirectory, profileDBFilename)
@@ -755,6 +766,36 @@ func vfC15Setup(t *testing.T) (*vfC15, func()) {
 	if state.cacheDB, err = sql.Open("vfsqlite_c", cPath); err != nil {
 		t.Fatal(err)
 	}
+}
+
+// restart: the daemon is stopped and started again on the same data directory — both handles are
+// closed and the REAL initDB runs again (cache file first, then the primary), nothing else.
+func (h *vfC15) restart() string {
+	state := h.state
+	h.setMode("up")
+	state.db.Close()
+	state.cacheDB.Close()
+	state.db, state.cacheDB = nil, nil
+	if err := initDB(state); err != nil {
+		return "err initDB"
+	}
+	state.dbDone <- struct{}{} // no background copy: every synchronisation is explicit
+	vfWrapDBs(h.t, state)
+	return "ok " + h.digest()
+}
+
+func vfC15Setup(t *testing.T) (*vfC15, func()) {
+	vfRegisterOnce.Do(func() {
+		sql.Register("vfsqlite_p", &vfDriver{'p'})
+		sql.Register("vfsqlite_c", &vfDriver{'c'})
+	})
+	state, cleanup := vfNewState(t)
+	// stop the background copier before its first run: every synchronisation is explicit
+	state.dbDone <- struct{}{}
+	pPath := filepath.Join(state.Config.Base.DataDirectory, profileDBFilename)
+	cPath := filepath.Join(state.Config.Base.DataDirectory, cachedDBFilename)
+	var err error
+	vfWrapDBs(t, state)
 	h := &vfC15{t: t, state: state, t0: time.Now().Unix(), profiles: map[int]*userProfile{},
 		tokens: map[int]*vfToken{}, secrets: map[int]string{}, otps: map[int]string{}}
 	if h.rawP, err = sql.Open("sqlite3", pPath); err != nil {
@@ -763,7 +804,7 @@ func vfC15Setup(t *testing.T) (*vfC15, func()) {
 	if h.rawC, err = sql.Open("sqlite3", cPath); err != nil {
 		t.Fatal(err)
 	}
-	*vfF = vfFaultCtl{failAt: -1, downAfter: -1}
+	*vfF = vfFaultCtl{failAt: -1, downAfter: -1, pFailAt: -1}
 	state.HostIdentity = "vfhost.example"
 	u2fAppID = vfC15Origin
 	u2fTrustedFacets = []string{vfC15Origin}
@@ -1038,6 +1079,14 @@ func (h *vfC15) op(f []string) string {
 			return "bad-op"
 		}
 		return h.flap(f[1], a[0], a[1])
+	case f[0] == "restart" && len(f) == 1:
+		return h.restart()
+	case f[0] == "label" && len(f) == 4:
+		a, ok := vfInts(f[1:])
+		if !ok || a[0] < 0 || a[1] < 0 || a[2] < 0 || a[1] == a[2] {
+			return "bad-op"
+		}
+		return h.label(a[0], a[1], a[2])
 	case f[0] == "ostale" && len(f) == 5:
 		a, ok := vfInts(f[2:])
 		if !ok || a[1] < 0 || a[2] < 0 {
@@ -1084,13 +1133,18 @@ func (h *vfC15) post(handler http.HandlerFunc, path string, authUser string, for
 //	t0    state.remoteDBQueryTimeout = 0 (the repository's own way to force the cache)
 //	slow  primary answers reads after the query timeout, writes still succeed
 //	down  every statement on the primary fails
+//	rerr  executing a SELECT on the primary reports an error; connect, prepare and writes work
 func (h *vfC15) setMode(mode string) bool {
 	vfF.mu.Lock()
-	vfF.down, vfF.readDelay, vfF.downAfter = false, 0, -1
+	vfF.down, vfF.readDelay, vfF.downAfter, vfF.readErr, vfF.pFailAt = false, 0, -1, false, -1
 	vfF.mu.Unlock()
 	h.state.remoteDBQueryTimeout = 2 * time.Second
 	switch mode {
 	case "up":
+	case "rerr": // flapping primary: the SELECTs answer with an error, writes go through
+		vfF.mu.Lock()
+		vfF.readErr = true
+		vfF.mu.Unlock()
 	case "t0":
 		h.state.remoteDBQueryTimeout = 0
 	case "slow":
@@ -1398,6 +1452,141 @@ func (h *vfC15) flap(route string, u, pid int) string {
 	}
 	h.setMode("up")
 	return fmt.Sprintf("ok flap %s %s | %s", route, strings.Join(res, " "), h.digest())
+}
+
+// label <u> <pidOld> <pidNew>: is the fromCache result of LoadUserProfile / GetUsers truthful?
+// The cache holds pidOld for u, the primary pidNew, user 1000+u exists in the primary only.
+// The loaders are called with the primary in every outage mode, with exactly its k-th statement
+// failing (for every k) and with the primary lost after its k-th statement (for every k).
+// Per point: where the answer came from (compared with what each database holds at that moment)
+// and the fromCache flag returned with it.
+func (h *vfC15) label(u, pidOld, pidNew int) string {
+	state := h.state
+	user, user2 := vfUserName(u), vfUserName(1000+u)
+	old, nw := h.build(pidOld), h.build(pidNew)
+	h.setMode("up")
+	if err := state.SaveUserProfile(user, old); err != nil {
+		return "err save"
+	}
+	if err, _, _, _ := h.sync(-1, false); err != nil {
+		return "err sync"
+	}
+	if state.SaveUserProfile(user, nw) != nil || state.SaveUserProfile(user2, nw) != nil {
+		return "err save2"
+	}
+	namesOf := func(db *sql.DB) string {
+		rows, err := db.Query("select username from user_profile order by username")
+		if err != nil {
+			return "!"
+		}
+		defer rows.Close()
+		var l []string
+		for rows.Next() {
+			var n string
+			rows.Scan(&n)
+			l = append(l, n)
+		}
+		return strings.Join(l, ",")
+	}
+	pNames, cNames := namesOf(h.rawP), namesOf(h.rawC)
+	// what each database holds for a user right now (nil: no row)
+	rowOf := func(db *sql.DB, name string) *userProfile {
+		var blob []byte
+		if db.QueryRow("SELECT profile_data FROM user_profile WHERE username = ?", name).Scan(&blob) != nil {
+			return nil
+		}
+		var p userProfile
+		if gob.NewDecoder(bytes.NewReader(blob)).Decode(&p) != nil {
+			return nil
+		}
+		return &p
+	}
+	// answer classes: P = the primary's row, C = the cache's row, S = both hold the same content,
+	// N = "no such user" and only the cache lacks the row, Z = "no such user" and neither has it,
+	// X = "no such user" although the cache has the row, other, err
+	load := func(name string) string {
+		pr, cr := rowOf(h.rawP, name), rowOf(h.rawC, name)
+		p, ok, fc, err := state.LoadUserProfile(name)
+		switch {
+		case err != nil:
+			return "err" + vfBool(fc)
+		case !ok && cr == nil && pr != nil:
+			return "N" + vfBool(fc)
+		case !ok && cr == nil:
+			return "Z" + vfBool(fc)
+		case !ok:
+			return "X" + vfBool(fc)
+		case pr != nil && cr != nil && vfProfileDiff(pr, cr) == "" && vfProfileDiff(pr, p) == "":
+			return "S" + vfBool(fc)
+		case pr != nil && vfProfileDiff(pr, p) == "":
+			return "P" + vfBool(fc)
+		case cr != nil && vfProfileDiff(cr, p) == "":
+			return "C" + vfBool(fc)
+		}
+		return "other" + vfBool(fc)
+	}
+	users := func() string {
+		names, fc, err := state.GetUsers()
+		switch {
+		case err != nil:
+			return "err" + vfBool(fc)
+		case strings.Join(names, ",") == pNames && pNames == cNames:
+			return "S" + vfBool(fc)
+		case strings.Join(names, ",") == pNames:
+			return "P" + vfBool(fc)
+		case strings.Join(names, ",") == cNames:
+			return "C" + vfBool(fc)
+		}
+		return "other" + vfBool(fc)
+	}
+	var out []string
+	for _, mode := range []string{"up", "t0", "slow", "down", "rerr"} {
+		h.setMode(mode)
+		out = append(out, mode+"/u:"+load(user), mode+"/n:"+load(user2), mode+"/l:"+users())
+	}
+	h.setMode("up")
+	time.Sleep(160 * time.Millisecond) // let the delayed primary reads of the modes above finish
+	type target struct {
+		tag string
+		f   func() string
+	}
+	targets := []target{{"u", func() string { return load(user) }}, {"n", func() string { return load(user2) }}, {"l", users}}
+	for _, tg := range targets {
+		for k := 0; k <= 12; k++ { // exactly the k-th primary statement fails
+			state.remoteDBQueryTimeout = 60 * time.Millisecond
+			vfF.mu.Lock()
+			vfF.pFailAt, vfF.pN, vfF.pHit = k, 0, false
+			vfF.mu.Unlock()
+			r := tg.f()
+			time.Sleep(2 * time.Millisecond)
+			vfF.mu.Lock()
+			hit := vfF.pHit
+			vfF.pFailAt = -1
+			vfF.mu.Unlock()
+			out = append(out, fmt.Sprintf("f%d/%s:%s", k, tg.tag, r))
+			if !hit {
+				break
+			}
+		}
+		for k := 0; k <= 12; k++ { // the primary is lost after its k-th statement
+			state.remoteDBQueryTimeout = 60 * time.Millisecond
+			vfF.mu.Lock()
+			vfF.down, vfF.downAfter = false, k
+			vfF.mu.Unlock()
+			r := tg.f()
+			time.Sleep(2 * time.Millisecond)
+			vfF.mu.Lock()
+			went := vfF.down
+			vfF.down, vfF.downAfter = false, -1
+			vfF.mu.Unlock()
+			out = append(out, fmt.Sprintf("d%d/%s:%s", k, tg.tag, r))
+			if !went {
+				break
+			}
+		}
+	}
+	h.setMode("up")
+	return fmt.Sprintf("ok label %s | %s", strings.Join(out, " "), h.digest())
 }
 
 func firstKey(m map[int64]*u2fAuthData) int64 {
